@@ -4,6 +4,7 @@
 # <dir> holds patch.diff, meta.json and the demonstration. Uses a scratch worktree under /tmp (removed afterwards).
 set -u
 export GOFLAGS=-mod=mod GOPROXY=off GOSUMDB=off GOTOOLCHAIN=local
+V=$(cd "$(dirname "$0")/.." && pwd)
 cmd=$1; D=$(cd "$2" && pwd)
 W=/tmp/vm-$$
 cleanup() { git -C /repo worktree remove --force "$W" >/dev/null 2>&1; rm -rf "$W"; }
@@ -35,7 +36,7 @@ verify)
 run)
   id=$3; tier=${4:-quick}
   (cd "$W" && git apply "$D/patch.diff") || { echo "RESULT patch does not apply"; exit 2; }
-  cd /verif && VERIF_REPO=$W VERIF_EVIDENCE_DIR=/tmp/vm-$$.ev ./check "$id" "$tier" > /tmp/vm-$$.out 2>&1; rc=$?
+  cd "$V" && VERIF_REPO=$W VERIF_EVIDENCE_DIR=/tmp/vm-$$.ev ./check "$id" "$tier" > /tmp/vm-$$.out 2>&1; rc=$?
   grep -m4 "^VIOLATION\|^BROKEN" /tmp/vm-$$.out | cut -c1-260
   grep "^SUMMARY" /tmp/vm-$$.out | cut -c1-200
   rm -rf /tmp/vm-$$.out /tmp/vm-$$.ev
